@@ -108,6 +108,10 @@ def run_cli(argv, out_path, hashseed="0", timeout=120):
 def _collect(res, out_path):
     d = os.path.dirname(out_path)
     base = os.path.basename(out_path)
+    if not os.path.exists(out_path) and out_path.endswith(".json"):
+        alt = out_path[:-5] + ".pt.trace.json"       # TensorBoard exporter renames the combined file
+        if os.path.exists(alt):
+            out_path = alt
     if os.path.exists(out_path):
         res.raw = open(out_path).read()
         try:
